@@ -9,6 +9,7 @@ extern "C" {
 // --allow-multiple-definition (vplans.HARNESS) so that it links whether they are external definitions in the header,
 // static inline, or declared in the header and defined in hash.c
 #include "cstl/hash.h"
+void vf_static_hash(struct cstl_hash *h, size_t off);
 }
 #include <cmath>
 using namespace vf;
@@ -149,7 +150,8 @@ struct Table {
         cap = cur_n = tgt_n = B = keyed_since = 0;
         cur_f = tgt_f = F_NULL;
         memset(&h, 0xA5, sizeof h);      // init must set every field itself
-        cstl_hash_init(&h, off);
+        if ((g_case_hash >> 21) & 1) vf_static_hash(&h, off);       // CSTL_HASH_INITIALIZER instead of cstl_hash_init()
+        else cstl_hash_init(&h, off);
     }
 };
 
